@@ -1,5 +1,8 @@
 import Netconan.Model.IpCore
 import Netconan.Model.Mask
+import Netconan.Model.IpText
+import Netconan.Pinned.Patterns
+import Netconan.Generated.Patterns
 import Netconan.Model.Md5
 import Netconan.Driver.Util
 /-! Driver commands for the IP core. -/
@@ -12,6 +15,23 @@ structure IpObj where
   h : Bits → Bool
   pins : List Bits
   cache : Cache
+  nets : List Mask.Net := []
+
+def parseNets (ws : List String) : List Mask.Net :=
+  ws.map (fun t => match t.splitOn "/" with
+    | [a, p] => (⟨a.toNat!, p.toNat!⟩ : Mask.Net)
+    | _ => ⟨0, 0⟩)
+
+def IpObj.textCfg (o : IpObj) (pinned : Bool) : IpText.IpCfg :=
+  let fam6 := o.L == 128
+  { fam6 := fam6, h := o.h, pins := o.pins, B := o.B, nets := o.nets,
+    pattern := if fam6 then (if pinned then Pinned.Patterns.ipv6 else Generated.Patterns.ipv6)
+               else (if pinned then Pinned.Patterns.ipv4 else Generated.Patterns.ipv4) }
+
+def showRes' : Regex.Res (List Char) → String
+  | .ok cs => "ok " ++ showCps cs
+  | .none => "err none"
+  | .oof => "err outOfFuel"
 
 /-- formula salter shared with the harness: v = int('1' + head, 2); ((v*a + b) % 1000003) >> 3 & 1 -/
 def fnBit (a b : Nat) (head : Bits) : Bool :=
@@ -73,12 +93,23 @@ def ipCmd (objs : List (String × IpObj)) (ws : List String) : Option (String ×
     | none => some ("bad-op", objs)
     | some o => some (s!"ok {ofBits (Spec.Gfull o.h o.pins o.L o.B (fmt o.L n.toNat!))}", objs)
   | ["ipfree", id] => some ("ok", objs.filter (·.1 != id))
+  | "ipnets" :: id :: nets =>
+    match find id with
+    | none => some ("bad-op", objs)
+    | some o => some ("ok", upd id { o with nets := parseNets nets })
+  -- ipline <id> <pinned|gen> <undo 0|1> <code points>
+  | ["ipline", id, which, undo, line] =>
+    match find id with
+    | none => some ("bad-op", objs)
+    | some o => some (showRes' (IpText.anonIpLine (o.textCfg (which == "pinned")) (undo == "1") (parseCps line)), objs)
+  | ["parsev6", t] => some (showRes (IpText.parseV6 (parseCps t)), objs)
+  | ["parsev4", t] => some (showRes (IpText.parseV4 (parseCps t)), objs)
+  | ["showv6", n] => some ("ok " ++ showCps (IpText.showV6 n.toNat!), objs)
+  | ["showv4", n] => some ("ok " ++ showCps (IpText.showV4 n.toNat!), objs)
   | ["ismask", n] => some (if Mask.isMask n.toNat! then "ok 1" else "ok 0", objs)
   -- shouldanon <n> <addr>/<plen> ...
   | "shouldanon" :: n :: nets =>
-    let ns := nets.map (fun t => match t.splitOn "/" with
-      | [a, p] => (⟨a.toNat!, p.toNat!⟩ : Mask.Net)
-      | _ => ⟨0, 0⟩)
+    let ns := parseNets nets
     some (if Mask.shouldAnonymize ns n.toNat! then "ok 1" else "ok 0", objs)
   | _ => none
 
